@@ -19,6 +19,7 @@
 //! permutation that is a strict partition around the pivot / strictly separated.
 
 use crate::common::*;
+use coupe::rayon::prelude::*;
 use coupe::Partition as _;
 use coupe::PointND;
 use std::collections::HashMap;
@@ -33,8 +34,8 @@ const MAX_ORACLE_ITER: usize = 16;
 enum Op {
     /// `prev`: `None` = the array is pre-filled with `usize::MAX`; `Some(p)` = it holds the ids of a
     /// previous `Rcb` call with `iter_count = p` on the same input (an array that is reused)
-    Rcb { d: usize, iter: usize, tol: f64, threads: usize, prev: Option<usize>, plen: usize, ws: Vec<i64>, np: usize, xs: Vec<f64> },
-    Rib { d: usize, iter: usize, tol: f64, threads: usize, n: usize, ws: Vec<i64>, orig: Vec<f64>, rot: Vec<f64> },
+    Rcb { d: usize, iter: usize, tol: f64, threads: usize, prev: Option<usize>, var: Option<String>, plen: usize, ws: Vec<i64>, np: usize, xs: Vec<f64> },
+    Rib { d: usize, iter: usize, tol: f64, threads: usize, var: Option<String>, n: usize, ws: Vec<i64>, orig: Vec<f64>, rot: Vec<f64> },
     Reorder { d: usize, coord: usize, pivot: usize, n: usize, ws: Vec<i64>, xs: Vec<f32> },
     Split { d: usize, coord: usize, tol: f64, min: f32, max: f32, n: usize, ws: Vec<i64>, xs: Vec<f32> },
 }
@@ -68,6 +69,32 @@ fn format_rcb_reuse(d: usize, iter: usize, tol: f64, threads: usize, prev: usize
     t.extend(ws.iter().map(|w| w.to_string()));
     t.push(np.to_string());
     t.extend(xs.iter().map(|x| h64(*x)));
+    t.join(" ")
+}
+
+/// `rcbvar <D> <iter> <tol> <threads> <variant> <plen> <nw> <w…> <np> <x…>`: as `rcb`; additionally the
+/// same data is fed through another legal input type / calling context / with the zero signs
+/// normalised (`VARIANTS`) and must give the same ids.
+#[allow(clippy::too_many_arguments)]
+fn format_rcb_var(d: usize, iter: usize, tol: f64, threads: usize, var: &str, ws: &[i64], xs: &[f64]) -> String {
+    let n = ws.len();
+    let mut t: Vec<String> =
+        vec!["rcbvar".into(), d.to_string(), iter.to_string(), h64(tol), threads.to_string(), var.to_string()];
+    t.push(n.to_string());
+    t.push(n.to_string());
+    t.extend(ws.iter().map(|w| w.to_string()));
+    t.push(n.to_string());
+    t.extend(xs.iter().map(|x| h64(*x)));
+    t.join(" ")
+}
+
+#[allow(clippy::too_many_arguments)]
+fn format_rib_var(d: usize, iter: usize, tol: f64, threads: usize, var: &str, ws: &[i64], orig: &[f64], rot: &[f64]) -> String {
+    let mut t: Vec<String> =
+        vec!["ribvar".into(), d.to_string(), iter.to_string(), h64(tol), threads.to_string(), var.to_string(), ws.len().to_string()];
+    t.extend(ws.iter().map(|w| w.to_string()));
+    t.extend(orig.iter().map(|x| h64(*x)));
+    t.extend(rot.iter().map(|x| h64(*x)));
     t.join(" ")
 }
 
@@ -149,11 +176,17 @@ fn parse_op(op: &str) -> Option<Op> {
         return None;
     }
     match kind {
-        "rcb" | "rcbreuse" => {
+        "rcb" | "rcbreuse" | "rcbvar" => {
             let iter = t.nat()?;
             let tol = t.f64()?;
             let threads = t.nat()?;
             let prev = if kind == "rcbreuse" { Some(t.nat()?) } else { None };
+            let var = if kind == "rcbvar" { Some(t.word()?.to_string()) } else { None };
+            if let Some(v) = &var {
+                if !VARIANTS.contains(&v.as_str()) {
+                    return None;
+                }
+            }
             if prev.map_or(false, |p| p > 16) {
                 return None;
             }
@@ -163,18 +196,24 @@ fn parse_op(op: &str) -> Option<Op> {
             let np = t.nat()?;
             let xs = t.f64s(np.checked_mul(d)?)?;
             t.end()?;
-            Some(Op::Rcb { d, iter, tol, threads, prev, plen, ws, np, xs })
+            Some(Op::Rcb { d, iter, tol, threads, prev, var, plen, ws, np, xs })
         }
-        "rib" => {
+        "rib" | "ribvar" => {
             let iter = t.nat()?;
             let tol = t.f64()?;
             let threads = t.nat()?;
+            let var = if kind == "ribvar" { Some(t.word()?.to_string()) } else { None };
+            if let Some(v) = &var {
+                if !RIB_VARIANTS.contains(&v.as_str()) {
+                    return None;
+                }
+            }
             let n = t.nat()?;
             let ws = t.ints(n)?;
             let orig = t.f64s(n.checked_mul(d)?)?;
             let rot = t.f64s(n * d)?;
             t.end()?;
-            Some(Op::Rib { d, iter, tol, threads, n, ws, orig, rot })
+            Some(Op::Rib { d, iter, tol, threads, var, n, ws, orig, rot })
         }
         "reorder" => {
             let coord = t.nat()?;
@@ -209,7 +248,8 @@ fn parse_op(op: &str) -> Option<Op> {
 // ------------------------------------------------------------------ running the implementation
 
 /// what `partition` returned, without the (non-`'static`-friendly) error type
-enum St {
+#[derive(Clone, Debug, PartialEq)]
+pub(crate) enum St {
     Ok,
     LenMismatch,
     Other(String),
@@ -252,6 +292,300 @@ fn run_rcb<const D: usize>(
         });
         (status(r), ids)
     })
+}
+
+// ------------------------------------------------------------------ input types, contexts, zero signs
+
+/// Other legal ways to hand the same data to `Rcb::partition` / to call it. Every one must return
+/// the ids of the plain call (`Vec<PointND>`, `Vec<i64>`, inside `pool.install`).
+pub(crate) const VARIANTS: [&str; 20] = [
+    // points: the impl takes any `IntoParallelIterator<Item = PointND<D>>` whose iterator is indexed and `Clone`
+    "pts_par_cloned",
+    "pts_into_par_map",
+    "pts_min_len",
+    "pts_max_len",
+    // weights: any `IntoParallelIterator` (indexed) of an `RcbWeight`
+    "w_par_cloned",
+    "w_into_par_map",
+    "w_min_len",
+    "w_max_len",
+    "w_f64",
+    "w_f32",
+    "w_i32",
+    "w_u32",
+    "w_u64",
+    // zero signs: `-0.0` weights (f64), an odd / an even number of them; `-0.0` coordinates on the line
+    "w_f64_negzero_odd",
+    "w_f64_negzero_even",
+    "coord_poszero",
+    // calling context
+    "ctx_global",
+    "ctx_in_task",
+    "ctx_concurrent",
+    "both_par_max_len",
+];
+
+pub(crate) const RIB_VARIANTS: [&str; 3] = ["w_f64", "w_f64_negzero_odd", "coord_poszero"];
+
+pub(crate) fn variant_sig(var: &str, algo: &str) -> String {
+    let class = if var.starts_with("ctx_") {
+        "context-dependent"
+    } else if var.contains("negzero") || var == "coord_poszero" {
+        "negzero-dependent"
+    } else {
+        "input-type-dependent"
+    };
+    format!("{}@{}", class, algo)
+}
+
+/// `-0.0` → `+0.0`
+fn poszero(xs: &[f64]) -> Vec<f64> {
+    xs.iter().map(|v| if *v == 0.0 { 0.0 } else { *v }).collect()
+}
+
+/// The weights as `f64`, with `-0.0` in place of an odd / even number (≥ 1 / ≥ 2) of the zero
+/// weights; `None` when there are not enough zero weights.
+fn negzero_weights(ws: &[i64], odd: bool) -> Option<Vec<f64>> {
+    let zeros: Vec<usize> = (0..ws.len()).filter(|&i| ws[i] == 0).collect();
+    let k = if odd {
+        if zeros.is_empty() {
+            return None;
+        }
+        if zeros.len() >= 3 { 3 } else { 1 }
+    } else {
+        if zeros.len() < 2 {
+            return None;
+        }
+        zeros.len() - zeros.len() % 2
+    };
+    let mut w: Vec<f64> = ws.iter().map(|v| *v as f64).collect();
+    // spread over the zero weights, not only the first ones
+    let step = (zeros.len() / k).max(1);
+    for j in 0..k {
+        w[zeros[(j * step).min(zeros.len() - 1)]] = -0.0;
+    }
+    // `step` may map two j to the same index only when k == zeros.len(): then every zero is taken
+    if w.iter().filter(|v| **v == 0.0 && v.is_sign_negative()).count() % 2 != (k % 2) {
+        return None;
+    }
+    Some(w)
+}
+
+/// Runs the variant; `None` = not applicable to this input (e.g. `f32` weights whose total is not exact).
+fn variant_d<const D: usize>(
+    var: String,
+    iter: usize,
+    tol: f64,
+    threads: usize,
+    ws: Vec<i64>,
+    xs: Vec<f64>,
+) -> Option<Caught<(St, Vec<usize>)>> {
+    let n = ws.len();
+    let total: i64 = ws.iter().sum();
+    if ws.iter().any(|w| *w < 0) {
+        return None;
+    }
+    match var.as_str() {
+        // sums must stay exact in the weight type (the contract: sums that do not overflow / exact weights)
+        "w_f32" if total >= 1 << 24 => return None,
+        "w_i32" if total > i32::MAX as i64 => return None,
+        "w_u32" if total > u32::MAX as i64 => return None,
+        "w_f64" | "w_f64_negzero_odd" | "w_f64_negzero_even" if total >= 1 << 53 => return None,
+        _ => {}
+    }
+    let nz = match var.as_str() {
+        "w_f64_negzero_odd" => Some(negzero_weights(&ws, true)?),
+        "w_f64_negzero_even" => Some(negzero_weights(&ws, false)?),
+        _ => None,
+    };
+    Some(catch_timeout(60, move || {
+        let pool = pool_size(threads);
+        let xs = if var == "coord_poszero" { poszero(&xs) } else { xs };
+        let points: Vec<PointND<D>> = to_points::<D>(&xs);
+        let mut ids = vec![usize::MAX; n];
+        let mut a = coupe::Rcb { iter_count: iter, tolerance: tol };
+        let chunk = 1 + n / 3;
+        let r = match var.as_str() {
+            "pts_par_cloned" => with_pool(pool, || a.partition(&mut ids, (points.par_iter().cloned(), ws))),
+            "pts_into_par_map" => {
+                let pts = &points;
+                with_pool(pool, || a.partition(&mut ids, ((0..n).into_par_iter().map(move |i| pts[i]), ws)))
+            }
+            "pts_min_len" => with_pool(pool, || a.partition(&mut ids, (points.par_iter().cloned().with_min_len(chunk), ws))),
+            "pts_max_len" => with_pool(pool, || a.partition(&mut ids, (points.par_iter().cloned().with_max_len(7), ws))),
+            "w_par_cloned" => with_pool(pool, || a.partition(&mut ids, (points, ws.par_iter().cloned()))),
+            "w_into_par_map" => {
+                let w = &ws;
+                with_pool(pool, || a.partition(&mut ids, (points, (0..n).into_par_iter().map(move |i| w[i]))))
+            }
+            "w_min_len" => with_pool(pool, || a.partition(&mut ids, (points, ws.par_iter().cloned().with_min_len(chunk)))),
+            "w_max_len" => with_pool(pool, || a.partition(&mut ids, (points, ws.par_iter().cloned().with_max_len(5)))),
+            "both_par_max_len" => with_pool(pool, || {
+                a.partition(
+                    &mut ids,
+                    (points.par_iter().cloned().with_max_len(3), ws.par_iter().cloned().with_max_len(11)),
+                )
+            }),
+            "w_f64" => {
+                let w: Vec<f64> = ws.iter().map(|v| *v as f64).collect();
+                with_pool(pool, || a.partition(&mut ids, (points, w)))
+            }
+            "w_f64_negzero_odd" | "w_f64_negzero_even" => {
+                let w = nz.unwrap();
+                with_pool(pool, || a.partition(&mut ids, (points, w)))
+            }
+            "w_f32" => {
+                let w: Vec<f32> = ws.iter().map(|v| *v as f32).collect();
+                with_pool(pool, || a.partition(&mut ids, (points, w)))
+            }
+            "w_i32" => {
+                let w: Vec<i32> = ws.iter().map(|v| *v as i32).collect();
+                with_pool(pool, || a.partition(&mut ids, (points, w)))
+            }
+            "w_u32" => {
+                let w: Vec<u32> = ws.iter().map(|v| *v as u32).collect();
+                with_pool(pool, || a.partition(&mut ids, (points, w)))
+            }
+            "w_u64" => {
+                let w: Vec<u64> = ws.iter().map(|v| *v as u64).collect();
+                with_pool(pool, || a.partition(&mut ids, (points, w)))
+            }
+            "coord_poszero" => with_pool(pool, || a.partition(&mut ids, (points, ws))),
+            // no `install`: this helper thread belongs to no pool, the call runs on the global one
+            "ctx_global" => a.partition(&mut ids, (points, ws)),
+            // from inside rayon tasks (nested joins inside a scope's spawned job)
+            "ctx_in_task" => with_pool(pool, || {
+                let mut r = None;
+                coupe::rayon::scope(|s| {
+                    s.spawn(|_| {
+                        let ((x, _), _) = coupe::rayon::join(
+                            || coupe::rayon::join(|| a.partition(&mut ids, (points, ws)), || std::hint::black_box(1)),
+                            || std::hint::black_box(2),
+                        );
+                        r = Some(x);
+                    });
+                });
+                r.expect("spawned job ran")
+            }),
+            // 8..32 calls at once in one pool: every one must return what it returns alone
+            "ctx_concurrent" => {
+                let k = 8 + (n + iter) % 25;
+                let inputs: Vec<(usize, Vec<PointND<D>>, Vec<i64>)> = (0..k)
+                    .map(|j| {
+                        let sh = if n > 0 { (j * 7919) % n } else { 0 };
+                        let mut p = points.clone();
+                        p.rotate_left(sh);
+                        let mut w = ws.clone();
+                        w.rotate_left(sh);
+                        (if j == 0 { iter } else { 1 + (iter + j) % 4 }, p, w)
+                    })
+                    .collect();
+                let one = |inp: &(usize, Vec<PointND<D>>, Vec<i64>)| {
+                    let mut out = vec![usize::MAX; inp.1.len()];
+                    let r = coupe::Rcb { iter_count: inp.0, tolerance: tol }.partition(&mut out, (inp.1.clone(), inp.2.clone()));
+                    (status(r), out)
+                };
+                let alone: Vec<(St, Vec<usize>)> = with_pool(pool, || inputs.iter().map(one).collect());
+                let together: Vec<(St, Vec<usize>)> = with_pool(pool, || inputs.par_iter().map(one).collect());
+                if let Some(j) = (0..k).find(|&j| alone[j] != together[j]) {
+                    return (
+                        St::Other(format!("call {} of {} concurrent calls differs from the same call alone", j, k)),
+                        together[j].1.clone(),
+                    );
+                }
+                return together.into_iter().next().unwrap();
+            }
+            _ => unreachable!("variant checked by the parser"),
+        };
+        (status(r), ids)
+    }))
+}
+
+/// The ids of `variant` on this input (for C04 as well). `None`: not applicable.
+pub(crate) fn variant_ids(
+    d: usize,
+    var: &str,
+    iter: usize,
+    tol: f64,
+    threads: usize,
+    ws: &[i64],
+    xs: &[f64],
+) -> Option<Caught<(St, Vec<usize>)>> {
+    if d == 2 {
+        variant_d::<2>(var.to_string(), iter, tol, threads, ws.to_vec(), xs.to_vec())
+    } else {
+        variant_d::<3>(var.to_string(), iter, tol, threads, ws.to_vec(), xs.to_vec())
+    }
+}
+
+/// Compare the variant with the plain call. `base`: canonical output line of the plain call.
+pub(crate) fn variant_verdict(
+    ctx: &mut Ctx,
+    algo: &str,
+    var: &str,
+    base_ids: Option<&[usize]>,
+    res: Option<Caught<(St, Vec<usize>)>>,
+) -> Option<(String, String)> {
+    let class = if var.starts_with("ctx_") { "context" } else if var.contains("zero") { "special" } else { "plumbing" };
+    let Some(res) = res else {
+        ctx.count(&format!("{}:{}_not_applicable", class, var));
+        return None;
+    };
+    ctx.count(&format!("{}:{}", class, var));
+    let sig = variant_sig(var, algo);
+    match (res, base_ids) {
+        (Caught::Ok((St::Ok, ids)), Some(b)) => {
+            if ids == b {
+                None
+            } else {
+                let k = (0..b.len().min(ids.len())).find(|&i| ids[i] != b[i]);
+                Some((sig, format!("variant {} returns other ids than the plain call (first difference at point {:?}: {:?} vs {:?})", var, k, k.map(|i| ids[i]), k.map(|i| b[i]))))
+            }
+        }
+        (Caught::Ok((St::Ok, _)), None) => Some((sig, format!("variant {} returns Ok, the plain call does not", var))),
+        (Caught::Ok((st, _)), Some(_)) => Some((sig, format!("variant {} returns {:?}, the plain call Ok", var, st))),
+        (Caught::Ok(_), None) => None,
+        (Caught::Panic(m), _) => Some((sig, format!("variant {} panics: {}", var, m))),
+        (Caught::Hang, _) => Some((sig, format!("variant {} hangs", var))),
+    }
+}
+
+macro_rules! rib_variant_fn {
+    ($name:ident, $d:literal) => {
+        fn $name(var: String, iter: usize, tol: f64, ws: Vec<i64>, xs: Vec<f64>) -> Option<Caught<(St, Vec<usize>)>> {
+            let n = ws.len();
+            let nz = if var == "w_f64_negzero_odd" { Some(negzero_weights(&ws, true)?) } else { None };
+            Some(catch_timeout(60, move || {
+                let xs = if var == "coord_poszero" { poszero(&xs) } else { xs };
+                let points: Vec<PointND<$d>> = to_points::<$d>(&xs);
+                let mut ids = vec![usize::MAX; n];
+                let mut a = coupe::Rib { iter_count: iter, tolerance: tol };
+                // 1-thread pool: the frame is a parallel f64 sum
+                let r = match var.as_str() {
+                    "w_f64" => {
+                        let w: Vec<f64> = ws.iter().map(|v| *v as f64).collect();
+                        with_pool(1, || a.partition(&mut ids, (&points[..], w)))
+                    }
+                    "w_f64_negzero_odd" => {
+                        let w = nz.unwrap();
+                        with_pool(1, || a.partition(&mut ids, (&points[..], w)))
+                    }
+                    _ => with_pool(1, || a.partition(&mut ids, (&points[..], ws))),
+                };
+                (status(r), ids)
+            }))
+        }
+    };
+}
+rib_variant_fn!(rib_variant_2, 2);
+rib_variant_fn!(rib_variant_3, 3);
+
+fn rib_variant(d: usize, var: &str, iter: usize, tol: f64, ws: &[i64], xs: &[f64]) -> Option<Caught<(St, Vec<usize>)>> {
+    if d == 2 {
+        rib_variant_2(var.to_string(), iter, tol, ws.to_vec(), xs.to_vec())
+    } else {
+        rib_variant_3(var.to_string(), iter, tol, ws.to_vec(), xs.to_vec())
+    }
 }
 
 /// The frame hook in a 1-thread pool: the points as Rib's inner Rcb sees them (flat, point-major).
@@ -507,20 +841,28 @@ pub fn run_op(ctx: &mut Ctx, op: &str) {
         return;
     };
     let (out, verdict, nontrivial): (String, Option<(String, String)>, bool) = match parsed {
-        Op::Rcb { d, iter, tol, threads, prev, plen, ws, np, xs } => {
+        Op::Rcb { d, iter, tol, threads, prev, var, plen, ws, np, xs } => {
             let lengths_ok = plen == ws.len() && plen == np;
             let finite = xs.iter().all(|v| v.is_finite());
             let x: Vec<f32> = xs.iter().map(|v| *v as f32).collect();
             let res = if d == 2 {
-                run_rcb::<2>(iter, tol, threads, prev, plen, ws, xs)
+                run_rcb::<2>(iter, tol, threads, prev, plen, ws.clone(), xs.clone())
             } else {
-                run_rcb::<3>(iter, tol, threads, prev, plen, ws, xs)
+                run_rcb::<3>(iter, tol, threads, prev, plen, ws.clone(), xs.clone())
             };
-            let (out, v, ok) = judge_partition(ctx, res, d, iter, lengths_ok, finite, &x);
+            let base_ids = match &res {
+                Caught::Ok((St::Ok, ids)) => Some(ids.clone()),
+                _ => None,
+            };
+            let (out, mut v, ok) = judge_partition(ctx, res, d, iter, lengths_ok, finite, &x);
             ctx.count(&format!("rcb_{}", out.split(' ').next().unwrap_or("")));
+            if let (Some(var), true, None) = (&var, lengths_ok && finite, &v) {
+                let r = variant_ids(d, var, iter, tol, threads, &ws, &xs);
+                v = variant_verdict(ctx, "rcb", var, base_ids.as_deref(), r);
+            }
             (out, v, ok && np >= 2 && iter >= 1)
         }
-        Op::Rib { d, iter, tol, threads, n, ws, orig, rot } => {
+        Op::Rib { d, iter, tol, threads, var, n, ws, orig, rot } => {
             let finite = orig.iter().all(|v| v.is_finite());
             match frame(d, &orig) {
                 Caught::Panic(m) => {
@@ -542,8 +884,12 @@ pub fn run_op(ctx: &mut Ctx, op: &str) {
                             Caught::Ok((St::Ok, ids)) => Some(ids.clone()),
                             _ => None,
                         };
-                        let (out, v, ok) = judge_partition(ctx, res, d, iter, true, finite, &x);
+                        let (out, mut v, ok) = judge_partition(ctx, res, d, iter, true, finite, &x);
                         ctx.count(&format!("rib_{}", out.split(' ').next().unwrap_or("")));
+                        if let (Some(var), true, None) = (&var, finite, &v) {
+                            let r = rib_variant(d, var, iter, tol, &ws, &orig);
+                            v = variant_verdict(ctx, "rib", var, ids1.as_deref(), r);
+                        }
                         if threads > 1 {
                             // another property's business: only counted
                             let again = match run_rib(d, iter, tol, threads, &ws, &orig) {
@@ -1193,6 +1539,292 @@ fn gen_large(ctx: &mut Ctx) {
     }
     gen_large_leaves(ctx);
     gen_reuse_small(ctx);
+    gen_special(ctx);
+}
+
+/// `-0.0` next to negative and positive coordinates: a small signed lattice in which an odd or an
+/// even number of the zero coordinates carries the minus sign.
+fn gen_negzero_points(r: &mut Rng, n: usize, d: usize, odd: bool) -> Vec<f64> {
+    let span = 1 + r.usize(3) as i64;
+    let mut xs: Vec<f64> = (0..n * d).map(|_| r.range(-span, span) as f64).collect();
+    if n > 0 && !xs.iter().any(|v| *v == 0.0) {
+        let k = r.usize(n * d);
+        xs[k] = 0.0;
+    }
+    let zeros: Vec<usize> = (0..xs.len()).filter(|&i| xs[i] == 0.0).collect();
+    let mut k = if zeros.is_empty() { 0 } else { 1 + r.usize(zeros.len()) };
+    if (k % 2 == 1) != odd {
+        k = if k > 1 { k - 1 } else if zeros.len() >= 2 { 2 } else { k };
+    }
+    for &i in zeros.iter().take(k) {
+        xs[i] = -0.0;
+    }
+    if r.chance(1, 3) {
+        // not only integers
+        for v in xs.iter_mut() {
+            if *v != 0.0 {
+                *v += unif(r, -0.4, 0.4);
+            }
+        }
+    }
+    xs
+}
+
+/// distinct as f64, equal after `as f32`; and coordinates near the end of the f32 range.
+/// The contract ("finite coordinates") is about the values the algorithm works on, i.e. AFTER its
+/// `as f32` conversion: a finite f64 beyond f32 range (1e39) becomes an infinity and is outside it –
+/// not generated. The legal side: magnitudes up to 3e38.
+fn gen_f32_corner_points(r: &mut Rng, n: usize, d: usize, extreme: bool) -> Vec<f64> {
+    if extreme {
+        let scale = *r.pick(&[1e30f64, 1e37, 3e38]);
+        (0..n * d).map(|_| nz(unif(r, -1.0, 1.0) * scale)).collect()
+    } else {
+        let m = 2 + r.usize(5);
+        let vals: Vec<f32> = (0..m).map(|_| unif(r, -10.0, 10.0) as f32).collect();
+        (0..n * d)
+            .map(|_| {
+                let v = *r.pick(&vals) as f64;
+                // well inside the rounding interval of `v`
+                nz(v * (1.0 + unif(r, -1.0, 1.0) * 1e-9))
+            })
+            .collect()
+    }
+}
+
+fn emit_rib_var(ctx: &mut Ctx, d: usize, iter: usize, tol: f64, var: &str, ws: &[i64], xs: &[f64]) {
+    match frame(d, xs) {
+        Caught::Ok(fr) => {
+            let rot = fr.unwrap_or_default();
+            if rot.iter().any(|v| !v.is_finite()) {
+                ctx.count("rib_skipped_degenerate_frame");
+                return;
+            }
+            let op = format_rib_var(d, iter, tol, 1, var, ws, xs, &rot);
+            run_op(ctx, &op);
+        }
+        _ => ctx.count("rib_skipped_degenerate_frame"),
+    }
+}
+
+/// SPECIAL VALUES / PLUMBING / CONTEXT: zero signs, f32 collisions and extremes, every legal input
+/// type, calling contexts, first-call sequences.
+fn gen_special(ctx: &mut Ctx) {
+    let quick = ctx.quick();
+    let small = |r: &mut Rng| match r.usize(3) {
+        0 => 2 + r.usize(10),
+        1 => 12 + r.usize(60),
+        _ => 72 + r.usize(400),
+    };
+    // ---- 1. signed zero
+    for k in 0..ctx.budget(16, 600) {
+        let d = 2 + (k % 2);
+        let n = small(&mut ctx.rng);
+        let iter = 1 + ctx.rng.usize(4);
+        let tol = pick_tol(&mut ctx.rng);
+        let threads = *ctx.rng.pick(&[1usize, 4]);
+        let xs = gen_negzero_points(&mut ctx.rng, n, d, k % 4 < 2);
+        let wshape = pick_weight_shape(&mut ctx.rng);
+        let ws = gen_weights(&mut ctx.rng, wshape, n);
+        ctx.count(if k % 4 < 2 { "special:negzero_coord_odd" } else { "special:negzero_coord_even" });
+        run_op(ctx, &format_rcb_var(d, iter, tol, threads, "coord_poszero", &ws, &xs));
+        if k % 8 == 0 {
+            emit_rib_var(ctx, d, iter, tol, "coord_poszero", &ws, &xs);
+        }
+    }
+    for k in 0..ctx.budget(12, 400) {
+        let d = 2 + (k % 2);
+        let n = small(&mut ctx.rng);
+        let iter = 1 + ctx.rng.usize(4);
+        let tol = pick_tol(&mut ctx.rng);
+        let shape = ctx.rng.usize(6);
+        let xs = gen_points(&mut ctx.rng, shape, n, d);
+        // zero weights: mostly zero / all zero / a few zeros among random weights
+        let mut ws = match k % 3 {
+            0 => gen_weights(&mut ctx.rng, 4, n),
+            1 => gen_weights(&mut ctx.rng, 3, n),
+            _ => gen_weights(&mut ctx.rng, 1, n),
+        };
+        for _ in 0..3 {
+            let i = ctx.rng.usize(n);
+            ws[i] = 0;
+        }
+        let var = if k % 2 == 0 { "w_f64_negzero_odd" } else { "w_f64_negzero_even" };
+        run_op(ctx, &format_rcb_var(d, iter, tol, 4, var, &ws, &xs));
+        if k % 6 == 0 {
+            emit_rib_var(ctx, d, iter, tol, "w_f64_negzero_odd", &ws, &xs);
+        }
+    }
+    // ---- 3. f32 collisions and the legal end of the f32 range
+    for k in 0..ctx.budget(20, 600) {
+        let d = 2 + (k % 2);
+        let n = small(&mut ctx.rng);
+        let iter = ctx.rng.usize(6);
+        let tol = pick_tol(&mut ctx.rng);
+        let threads = *ctx.rng.pick(&THREADS);
+        let extreme = k % 2 == 1;
+        let xs = gen_f32_corner_points(&mut ctx.rng, n, d, extreme);
+        let wshape = pick_weight_shape(&mut ctx.rng);
+        let ws = gen_weights(&mut ctx.rng, wshape, n);
+        ctx.count(if extreme { "special:f32_extreme_magnitude" } else { "special:f32_collision" });
+        run_op(ctx, &format_rcb(d, iter, tol, threads, n, &ws, n, &xs));
+    }
+    ctx.notes.push(
+        "f64 coordinates beyond the f32 range (e.g. 1e39) become infinities under the `as f32` conversion Rcb/Rib perform: outside the contract (finite coordinates after the conversion), not generated; the legal side (|x| up to 3e38, and f64 values that collide after the conversion) is"
+            .to_string(),
+    );
+    // ---- 4. input types
+    let plumbing: Vec<&str> = VARIANTS.iter().copied().filter(|v| !v.starts_with("ctx_") && !v.contains("zero")).collect();
+    for rep in 0..ctx.budget(2, 60) {
+        for (k, var) in plumbing.iter().enumerate() {
+            let d = 2 + ((k + rep) % 2);
+            let n = if rep % 2 == 0 { small(&mut ctx.rng) } else { pick_n(&mut ctx.rng, 1500).max(1) };
+            let iter = ctx.rng.usize(6);
+            let tol = pick_tol(&mut ctx.rng);
+            let threads = *ctx.rng.pick(&[1usize, 2, 4, 16]);
+            let shape = ctx.rng.usize(7);
+            let xs = gen_points(&mut ctx.rng, shape, n, d);
+            // weights whose total is exact in every weight type tried
+            let ws: Vec<i64> = match ctx.rng.usize(3) {
+                0 => vec![1; n],
+                1 => (0..n).map(|_| ctx.rng.range(0, 100)).collect(),
+                _ => gen_weights(&mut ctx.rng, 4, n),
+            };
+            run_op(ctx, &format_rcb_var(d, iter, tol, threads, var, &ws, &xs));
+        }
+    }
+    for rep in 0..ctx.budget(3, 20) {
+        // Rib takes a slice of points; its weights are as generic as Rcb's
+        let d = 2 + (rep % 2);
+        let n = 3 + small(&mut ctx.rng);
+        let iter = 1 + ctx.rng.usize(4);
+        let xs = gen_points(&mut ctx.rng, 0, n, d);
+        let ws: Vec<i64> = (0..n).map(|_| ctx.rng.range(0, 100)).collect();
+        emit_rib_var(ctx, d, iter, 0.05, "w_f64", &ws, &xs);
+    }
+    // large inputs: the adaptors change how rayon splits the passes over all n items
+    for (k, var) in ["pts_max_len", "pts_min_len", "w_max_len", "both_par_max_len", "w_f64", "pts_into_par_map"].iter().enumerate() {
+        if quick && k >= 4 {
+            break;
+        }
+        let d = 2 + (k % 2);
+        let mut n = 8193 + ctx.rng.usize(12000);
+        while n % 4096 == 0 {
+            n += 1;
+        }
+        let iter = 1 + ctx.rng.usize(3);
+        let threads = [2usize, 16, 3, 4, 5, 1][k];
+        let xs = gen_large_points(&mut ctx.rng, 0, n, d);
+        let ws: Vec<i64> = (0..n).map(|_| ctx.rng.range(0, 100)).collect();
+        ctx.count("plumbing:large_n");
+        run_op(ctx, &format_rcb_var(d, iter, 0.05, threads, var, &ws, &xs));
+    }
+    // ---- 5. calling context
+    for rep in 0..ctx.budget(3, 60) {
+        for (k, var) in ["ctx_global", "ctx_in_task", "ctx_concurrent", "ctx_concurrent"].iter().enumerate() {
+            let d = 2 + ((k + rep) % 2);
+            let n = if rep % 3 == 2 { pick_n(&mut ctx.rng, 1500).max(2) } else { small(&mut ctx.rng) };
+            let iter = 1 + ctx.rng.usize(4);
+            let tol = pick_tol(&mut ctx.rng);
+            // many calls at once: pools of 4 and 16 workers
+            let threads = if k == 2 { 4 } else if k == 3 { 16 } else { *ctx.rng.pick(&[2usize, 4, 16]) };
+            let shape = ctx.rng.usize(6);
+            let xs = gen_points(&mut ctx.rng, shape, n, d);
+            let wshape = pick_weight_shape(&mut ctx.rng);
+            let ws = gen_weights(&mut ctx.rng, wshape, n);
+            run_op(ctx, &format_rcb_var(d, iter, tol, threads, var, &ws, &xs));
+        }
+    }
+    for k in 0..ctx.budget(1, 6) {
+        // concurrent calls on inputs large enough for rayon to split every pass
+        let d = 2 + (k % 2);
+        let n = 8193 + ctx.rng.usize(4000);
+        let xs = gen_large_points(&mut ctx.rng, 0, n, d);
+        let ws: Vec<i64> = (0..n).map(|_| ctx.rng.range(0, 100)).collect();
+        ctx.count("context:concurrent_large_n");
+        run_op(ctx, &format_rcb_var(d, 2, 0.05, if k % 2 == 0 { 16 } else { 4 }, "ctx_concurrent", &ws, &xs));
+    }
+    // ---- 6. first-call sequences in a fresh process
+    gen_first_call_sequences(ctx);
+}
+
+/// Process-level state: a `static` / `OnceLock` / `thread_local` inside a generic function is shared
+/// by all its instantiations and initialised by whichever call comes first. This process has made
+/// thousands of calls (2-D, `i64`, pool 1 first) by now; each sequence below is replayed in a FRESH
+/// child process in which its first op is the first call of all, and every line must be what this
+/// process answers for the same op.
+fn gen_first_call_sequences(ctx: &mut Ctx) {
+    let Ok(exe) = std::env::current_exe() else {
+        ctx.count("context:first_call_child_unavailable");
+        return;
+    };
+    let seqs: [&[(&str, usize, usize)]; 4] = [
+        // (kind, dimension, pool)
+        &[("rcb", 3, 16), ("rcb", 2, 1), ("rcb", 3, 4), ("rcb", 2, 16)],
+        &[("w_f64", 3, 4), ("rcb", 2, 4), ("w_f32", 2, 1), ("rcb", 3, 1)],
+        &[("rib", 3, 1), ("rcb", 2, 16), ("rib", 2, 1), ("rcb", 3, 2)],
+        &[("ctx_concurrent", 2, 16), ("rcb", 3, 1), ("w_u32", 3, 5), ("rcb", 2, 3)],
+    ];
+    for (si, seq) in seqs.iter().enumerate() {
+        let first = ctx.ops.len();
+        for &(kind, d, threads) in seq.iter() {
+            let n = 20 + ctx.rng.usize(300);
+            let iter = 1 + ctx.rng.usize(4);
+            let xs = gen_points(&mut ctx.rng, 0, n, d);
+            let ws: Vec<i64> = (0..n).map(|_| ctx.rng.range(0, 100)).collect();
+            match kind {
+                "rcb" => run_op(ctx, &format_rcb(d, iter, 0.05, threads, n, &ws, n, &xs)),
+                "rib" => {
+                    if let Caught::Ok(Some(rot)) = frame(d, &xs) {
+                        run_op(ctx, &format_rib(d, iter, 0.05, 1, &ws, &xs, &rot));
+                    }
+                }
+                var => run_op(ctx, &format_rcb_var(d, iter, 0.05, threads, var, &ws, &xs)),
+            }
+        }
+        let last = ctx.ops.len();
+        if last == first {
+            continue;
+        }
+        ctx.count("context:first_call_sequence");
+        let dir = std::env::temp_dir().join(format!("c03-firstcall-{}-{}", std::process::id(), si));
+        let _ = std::fs::create_dir_all(&dir);
+        let opsf = dir.join("ops.txt");
+        if std::fs::write(&opsf, ctx.ops[first..last].join("\n") + "\n").is_err() {
+            ctx.count("context:first_call_child_unavailable");
+            continue;
+        }
+        let st = std::process::Command::new(&exe)
+            .args(["replay", "C03", "--ops"])
+            .arg(&opsf)
+            .arg("--out")
+            .arg(&dir)
+            .stdout(std::process::Stdio::null())
+            .stderr(std::process::Stdio::null())
+            .status();
+        let child: Option<Vec<String>> = match st {
+            Ok(s) if s.success() => std::fs::read_to_string(dir.join("impl.txt")).ok().map(|t| t.lines().map(|l| l.to_string()).collect()),
+            _ => None,
+        };
+        let _ = std::fs::remove_dir_all(&dir);
+        match child {
+            None => ctx.count("context:first_call_child_unavailable"),
+            Some(lines) => {
+                for (j, idx) in (first..last).enumerate() {
+                    if lines.get(j) != Some(&ctx.impl_out[idx]) {
+                        let what = format!(
+                            "op {} of first-call sequence {} answers differently in a fresh process (where the sequence's first op is the first call of all) than in this one: {:?} vs {:?}",
+                            j,
+                            si,
+                            lines.get(j).map(|l| l.chars().take(120).collect::<String>()),
+                            ctx.impl_out[idx].chars().take(120).collect::<String>()
+                        );
+                        ctx.fail(idx, "context-dependent@rcb", what);
+                        break;
+                    }
+                }
+            }
+        }
+    }
 }
 
 /// Large LEAVES and full-size passes. `rcb_recurse` stores the part id of a leaf through a parallel
